@@ -1337,10 +1337,14 @@ class mem(exp):
     def eval(self, env):
         a = self.a.eval(env)
         m = env.use()
-        for loc, v in self.mods:
+        for mod in self.mods:
+            loc, v = mod[0], mod[1]
             if loc._is_ptr:
-                loc = env(loc)
-            m[loc] = env(v)
+                # a memory write is replayed with the byte order it was made with
+                endian = mod[2] if len(mod) > 2 else 1
+                m.__setitem__(env(loc), env(v), endian)
+            else:
+                m[loc] = env(v)
         res = m[mem(a, self.size, endian=self.endian)]
         res.sf = self.sf
         return res
